@@ -65,6 +65,7 @@ class MemStore(uberjob.ValueStore):
         self.env.event("read", self.key)
         if self.mtime is None:
             raise KeyError("store %r is empty" % (self.key,))
+        self.env.rec.add("readval", self.key, self.value)
         return self.value
 
     def write(self, value):
@@ -235,6 +236,7 @@ def build_cache(spec, env):
                 st.value, st.mtime = ("s", writes, b.ver[writes]), env.tick()
                 env.rec.add("write", writes, st.value, st.mtime)
                 env.event("produced", writes)
+            env.rec.add("ret", i, ("a", i) + tuple(args))
             return ("a", i) + tuple(args)
         fn.__name__ = fn.__qualname__ = "f%d" % i
         return fn
@@ -338,6 +340,59 @@ def real_stale(b, env, F):
     return sorted(inv[id(n)] for n in st if id(n) in inv)
 
 
+# ------------------------------------------------------------------------------------------- the execution model (T2)
+def exec_applicable(spec):
+    """The execution model (Model/Exec.lean) has user calls without side effects: plans without producers / dependent sources."""
+    return not any(nd["kind"] in ("producer", "dsource", "token") or "feeds" in nd for nd in spec["nodes"])
+
+
+def exec_request(b, snap, c0, stale, out, events, value, ok):
+    """One `exec` request for the Lean driver and the reply the REAL run corresponds to: the logical plan (plus the gather of
+    the requested output), the registry in mapping order, the stale set the run computed, the store state before the run,
+    and the order in which the effects of the physical nodes took place in the real run (calls that returned, reads that
+    returned, writes that took effect).  The model must predict every value: what every call returned, what every read
+    returned, what every store holds afterwards (content and modified time) and what `run` returned."""
+    spec = b.spec
+    n = len(spec["nodes"])
+    nodes, edges = [], []
+    for nd in spec["nodes"]:
+        nodes.append("%d:%s" % (nd["id"], "l" if nd["kind"] in ("lit", "token") else "c"))
+        for k, a in enumerate(nd["args"]):
+            edges.append("%d>%d:p%d" % (a, nd["id"], k))
+        for d in nd["deps"]:
+            edges.append("%d>%d:d" % (d, nd["id"]))
+    if out is None:
+        outtok = "-"
+    else:
+        nodes.append("%d:%s" % (n, "c" if out else "l"))
+        edges += ["%d>%d:p%d" % (o, n, k) for k, o in enumerate(out)]
+        outtok = str(n)
+    inv = {id(nn): i for i, nn in b.N.items()}
+    reg = " ".join("%d:%s" % (inv[id(nn)], "S" if rv.is_source else "N") for nn, rv in b.reg.mapping.items())
+    world = " ".join("%d=%s@%d" % (i, term(v), t) for i, (v, t) in sorted(snap.items()) if t is not None)
+    order, slots = [], []
+    for k, e in enumerate(events):
+        if e[0] == "ret":
+            order.append("o%d" % e[1])
+            slots.append("o%d=%s" % (e[1], term(e[2])))
+        elif e[0] == "readval":
+            order.append("r%d" % e[1])
+            slots.append("r%d=%s" % (e[1], term(e[2])))
+        elif e[0] == "write":
+            order.append("w%d" % e[1])
+    if ok and out is not None and out:
+        order.append("o%d" % n)
+        slots.append("o%d=a%d(%s)" % (n, n, ",".join(term(v) for v in value)))
+    stores = sorted("%d=%s@%d" % (i, term(st.value), st.mtime) for i, st in b.stores.items() if st.mtime is not None)
+    line = "exec | %s | %s | %s | %s | %s | %s | %d | %s" % (
+        " ".join(nodes), " ".join(edges), reg, " ".join(str(i) for i in sorted(stale) if i in b.stores), outtok, world, c0,
+        " ".join(order))
+    want = "stores %s | slots %s" % (" ".join(stores), " ".join(slots))
+    if ok:
+        want += " | out %s" % ("-" if out is None else "a%d(%s)" % (n, ",".join(term(v) for v in value)))
+    return line, want
+
+
 # ------------------------------------------------------------------------------------------- one history
 def run_history(spec, hseed, steps, driver, props, mode="prim"):
     """Returns (violations, disagreements, stats)."""
@@ -410,6 +465,8 @@ def run_history(spec, hseed, steps, driver, props, mode="prim"):
             stale_before = set(real_stale(b, env, F))
             ood_before = out_of_date(b, F)
             mt_before = {i: s.mtime for i, s in b.stores.items()}
+            snap_before = {i: (s.value, s.mtime) for i, s in b.stores.items()}
+            c0_before = env.clock + 1
             env.rec = plans.Rec()
             env.count, env.cut_at = 0, cut
             outnodes = None if out is None else [b.N[i] for i in out]
@@ -429,6 +486,11 @@ def run_history(spec, hseed, steps, driver, props, mode="prim"):
             mirror_writes(events)
             ok = rr.exc is None
             was_cut = any(e[0] == "cut" for e in events)
+            if exec_applicable(spec):
+                xl, xw = exec_request(b, snap_before, c0_before, stale_before, out, events, rr.value if ok else None, ok)
+                q(xl, "prefix", xw, "execution model: values computed, read and stored by this run")
+                stats["exec_runs"] = stats.get("exec_runs", 0) + 1
+                stats["exec_effects"] = stats.get("exec_effects", 0) + sum(1 for e in events if e[0] in ("ret", "readval", "write"))
             # C08: "the next successful run produces correct outputs and stored values" — after a run of this history was
             # cut short or failed, the from-scratch checks on a later successful run are C08's as well
             p3 = "C03" if "C03" in props else ("C08" if ("C08" in props and had_cut) else None)
@@ -553,6 +615,9 @@ def run_history(spec, hseed, steps, driver, props, mode="prim"):
         for (kind, want, what), got, line in zip(expect, out, lines):
             if kind == "eq" and got.strip() != want.strip():
                 dis.append({"layer": "cache", "what": what, "request": line, "impl": want, "model": got})
+                break
+            if kind == "prefix" and not got.strip().startswith(want.strip()):
+                dis.append({"layer": "exec", "what": what, "request": line, "impl": want, "model": got})
                 break
     for v in viol:
         v.setdefault("spec", spec)
